@@ -1,0 +1,150 @@
+//! Verification hooks. Only compiled with `--cfg unimock_verif`.
+//!
+//! Nothing in here changes the behaviour of the library: the items below either
+//! observe internal state (read-only snapshots) or let an external harness build
+//! run-time sized clause lists through the ordinary `Clause::deconstruct` path.
+#![allow(missing_docs)]
+
+use crate::alloc::{Box, String, ToString, Vec};
+use crate::clause;
+use crate::fn_mocker::PatternMatchMode;
+use crate::{Clause, FallbackMode, Unimock};
+
+type DynDeconstruct = Box<dyn FnOnce(&mut dyn clause::term::Sink) -> Result<(), String>>;
+
+/// A clause made of a run-time sized list of clauses, deconstructed left to right.
+#[derive(Default)]
+pub struct DynClause {
+    items: Vec<DynDeconstruct>,
+}
+
+impl DynClause {
+    pub fn new() -> Self {
+        Self { items: Vec::new() }
+    }
+
+    pub fn push<C: Clause + 'static>(&mut self, clause: C) {
+        self.items
+            .push(Box::new(move |sink| clause.deconstruct(sink)));
+    }
+
+    pub fn len(&self) -> usize {
+        self.items.len()
+    }
+
+    pub fn is_empty(&self) -> bool {
+        self.items.is_empty()
+    }
+}
+
+impl Clause for DynClause {
+    fn deconstruct(self, sink: &mut dyn clause::term::Sink) -> Result<(), String> {
+        for item in self.items {
+            item(sink)?;
+        }
+        Ok(())
+    }
+}
+
+#[derive(Clone, Debug, PartialEq, Eq)]
+pub struct PatternSnapshot {
+    pub count: usize,
+    pub range: (usize, usize),
+    pub minimum: usize,
+    /// 0 = exact, 1 = at least, 2 = at least plus one
+    pub exactness: u8,
+    pub response_indexes: Vec<usize>,
+    pub responder_kinds: Vec<&'static str>,
+    pub has_matcher: bool,
+    pub has_debug: bool,
+}
+
+#[derive(Clone, Debug, PartialEq, Eq)]
+pub struct FnSnapshot {
+    pub trait_ident: &'static str,
+    pub method_ident: &'static str,
+    pub in_order: bool,
+    pub has_default_impl: bool,
+    pub partial_by_default: bool,
+    pub patterns: Vec<PatternSnapshot>,
+}
+
+#[derive(Clone, Debug, PartialEq, Eq)]
+pub struct Snapshot {
+    pub fallback_unmock: bool,
+    pub next_ordered: usize,
+    pub fns: Vec<FnSnapshot>,
+    /// (kind, rendered message) of every recorded mock-induced error, in order
+    pub reasons: Vec<(&'static str, String)>,
+    pub strong_count: usize,
+}
+
+#[derive(Clone, Copy, Debug, PartialEq, Eq)]
+pub struct InstanceFlags {
+    pub original_instance: bool,
+    pub torn_down: bool,
+    pub verify_in_drop: bool,
+    pub has_delegator: bool,
+}
+
+/// Read-only snapshot of the state shared by an instance and its clones.
+pub fn snapshot(unimock: &Unimock) -> Snapshot {
+    let shared = &unimock.shared_state;
+    let mut fns = Vec::new();
+    for fn_mocker in shared.fn_mockers.values() {
+        let mut patterns = Vec::new();
+        for pattern in fn_mocker.call_patterns.iter() {
+            let (count, minimum, exactness) = pattern.call_counter.verif_parts();
+            patterns.push(PatternSnapshot {
+                count,
+                range: (
+                    pattern.ordered_call_index_range.start,
+                    pattern.ordered_call_index_range.end,
+                ),
+                minimum,
+                exactness,
+                response_indexes: pattern
+                    .responders
+                    .iter()
+                    .map(|r| r.response_index)
+                    .collect(),
+                responder_kinds: pattern
+                    .responders
+                    .iter()
+                    .map(|r| r.responder.verif_kind())
+                    .collect(),
+                has_matcher: pattern.input_matcher.verif_has_matcher(),
+                has_debug: pattern.input_matcher.matcher_debug.is_some(),
+            });
+        }
+        fns.push(FnSnapshot {
+            trait_ident: fn_mocker.info.path.trait_ident(),
+            method_ident: fn_mocker.info.path.method_ident(),
+            in_order: fn_mocker.pattern_match_mode == PatternMatchMode::InOrder,
+            has_default_impl: fn_mocker.info.has_default_impl,
+            partial_by_default: fn_mocker.info.partial_by_default,
+            patterns,
+        });
+    }
+    Snapshot {
+        fallback_unmock: matches!(shared.fallback_mode, FallbackMode::Unmock),
+        next_ordered: shared.verif_next_ordered(),
+        fns,
+        reasons: shared
+            .clone_panic_reasons()
+            .iter()
+            .map(|e| (e.verif_kind(), e.to_string()))
+            .collect(),
+        strong_count: crate::alloc::Arc::strong_count(shared),
+    }
+}
+
+/// Read-only view of the per-instance flags.
+pub fn instance_flags(unimock: &Unimock) -> InstanceFlags {
+    InstanceFlags {
+        original_instance: unimock.original_instance,
+        torn_down: unimock.torn_down,
+        verify_in_drop: unimock.verify_in_drop,
+        has_delegator: unimock.default_impl_delegator_cell.get().is_some(),
+    }
+}
